@@ -26,3 +26,23 @@ func newContinueResult(target string) result {
 func newBreakResult(target string) result {
 	return result{kind: resultBreak, value: emptyValue, target: target}
 }
+
+// withCompletionValue hands the value produced so far to a break or continue
+// completion that does not carry one yet (ECMA 262 12.1: (B.type, V, B.target)).
+func (v Value) withCompletionValue(completion Value) Value {
+	r := v.value.(result)
+	if r.kind != resultReturn && r.value.isEmpty() && !completion.isEmpty() {
+		r.value = completion
+		return toValue(r)
+	}
+	return v
+}
+
+// completionValue is the value a break or continue completion carries (empty if none).
+func (v Value) completionValue() Value {
+	r := v.value.(result)
+	if r.kind == resultReturn {
+		return emptyValue
+	}
+	return r.value
+}
